@@ -176,10 +176,13 @@ var gateGroups = []gateGroup{
 			{fn: "skylight.checkLog", what: "log health check", effect: effectSuccess, min: 5},
 			{fn: "skylight.(witnessHealth).check", what: "witness health check", effect: effectSuccess, min: 3},
 		}},
-	{prop: "C11", id: "C11.f", rule: "every failing step of tree-head signing (key hash, signature, encoding) cuts off the successful return of the signed checkpoint",
+	{prop: "C11", id: "C11.h", rule: "every failing step of tree-head signing (key hash, signature, encoding) cuts off the successful return of the signed checkpoint",
 		specs: []gateSpec{
 			{fn: "ctlog.signTreeHead", what: "tree-head signing", effect: effectSuccess, min: 4},
 			{fn: "ctlog.hashTreeHead", what: "tree-head hashing", effect: effectSuccess, min: 1},
+			{fn: "sunlight.NewRFC6962Verifier", what: "verifier construction", effect: effectSuccess, min: 1},
+			{fn: "sunlight.NewRFC6962InjectedSigner", what: "signer construction", effect: effectSuccess, min: 1},
+			{fn: "sunlight.RFC6962SignatureTimestamp", what: "timestamp extraction", effect: effectSuccess, min: 1},
 		}},
 	{prop: "C07", id: "C07.i", rule: "every failing step of the deduplication cache set-up and lookup cuts off the successful return",
 		specs: []gateSpec{
@@ -201,6 +204,10 @@ var gateGroups = []gateGroup{
 			{fn: "ctlog.(*ETagBackend).Fetch", what: "ETag fetch", effect: effectSuccess, min: 2},
 			{fn: "ctlog.(*ETagBackend).Replace", what: "ETag replace", effect: effectSuccess, min: 1},
 			{fn: "ctlog.(*ETagBackend).Create", what: "ETag create", effect: effectSuccess, min: 1},
+		}},
+	{prop: "C10", id: "C10.h", rule: "every failing step of the tile-path and tile-leaf decoders cuts off their successful return",
+		specs: []gateSpec{
+			{fn: "sunlight.ParseTilePath", what: "tile path parsing", effect: effectSuccess, min: 2},
 		}},
 	{prop: "C13", id: "C13.l", rule: "every failing step of the local backend's Upload, of compareFile and of durable.Mkdir cuts off their success return",
 		specs: []gateSpec{
@@ -294,6 +301,11 @@ func attachGates() {
 		p := registry[gg.prop]
 		if p == nil {
 			panic("gates: unknown property " + gg.prop)
+		}
+		for _, o := range p.Obligations {
+			if o.ID == gg.id {
+				panic("gates: duplicate obligation id " + gg.id)
+			}
 		}
 		min := 0
 		for _, sp := range gg.specs {
